@@ -65,6 +65,7 @@ def factory(repo):
     if i < 0: raise TranslationError('createCovFunc not found')
     b = s.index('{', i); e = match(s, b, '{', '}')
     body = s[b:e]
+    factory.guards_dimension = bool(re.search(r'!\s*cova->isConsistent\s*\(\s*\)', body)) and 'my_throw' in body
     if 'case' not in body:
         # the switch may live in a file-local helper that createCovFunc calls (and then checks isConsistent() on the result)
         m = re.search(r'(\w+)\s*\(\s*type\s*,\s*ctxt\s*\)', body)
@@ -406,14 +407,14 @@ def translate(repo):
         else:
             e['haseval'] = False; e['hash'] = 0; e['shape'] = 'none'; e['support'] = None
         entries.append(e)
-    return render(entries, gens, isc), {'entries': entries, 'gens': dict(gens), 'isvalid_checks_space': getattr(factory, 'space_checked', False),
+    return render(entries, gens, isc, getattr(factory, 'space_checked', False), getattr(factory, 'guards_dimension', False)), {'entries': entries, 'gens': dict(gens), 'isvalid_checks_space': getattr(factory, 'space_checked', False), 'factory_guards_dimension': getattr(factory, 'guards_dimension', False),
                                         'isConsistent': re.sub(r'\s+', ' ', isc)}
 
 def coq_str(s): return '"' + s.replace('"', '""') + '"'
 def coq_bool(b): return 'true' if b else 'false'
 def coq_optq(x): return 'None' if x is None else 'Some %s' % qlit(x)
 
-def render(entries, gens, isc):
+def render(entries, gens, isc, space_checked=False, guards_dimension=False):
     L = ['(* GENERATED by translators/C03_covtable.py from include/Covariances/Cov*.hpp, src/Covariances/Cov*.cpp,',
          '   CovFactory.cpp, ECov.hpp.  Regenerated on every run of the check.  DO NOT EDIT. *)',
          'From Coq Require Import List ZArith QArith Qabs Qminmax String.',
@@ -447,6 +448,11 @@ def render(entries, gens, isc):
         L.append('Definition gen_%s (ndim : Z) (field h : Q) : Q :=\n  %s.' % (cls, term))
     L.append('')
     L.append('Definition gen_classes : list string := [%s].' % '; '.join(coq_str(c) for c, _ in gens))
+    L.append('')
+    L.append('(* CovFactory: createCovFunc re-checks isConsistent() on the complete object and throws; _isValid (getCovList) also')
+    L.append('   requires the structure to be compatible with the type of space of the context *)')
+    L.append('Definition factory_guards_dimension : bool := %s.' % coq_bool(guards_dimension))
+    L.append('Definition factory_checks_space : bool := %s.' % coq_bool(space_checked))
     return '\n'.join(L) + '\n'
 
 if __name__ == '__main__':
